@@ -64,3 +64,6 @@ RC.append(("np.prod of an array containing a zero (a smooth point: the derivativ
            [("C01", "prod", "rev", "not-finite", "point:kink"), ("C02", "prod", "fwd", "not-finite", "point:kink")]))
 RC.append(("np.linalg.det of a singular matrix (det is a polynomial, its gradient is the cofactor matrix): the rule computes ans * inv(x).T and raises LinAlgError",
            [("C01", "det", "rev", "raised-at-handled-kink", "point:kink"), ("C02", "det", "fwd", "raised-at-handled-kink", "point:kink")]))
+
+RC.append(("np.sum(x, axis=k, dtype=int): the result is integer-valued (piecewise constant in x) but the rules of sum ignore dtype and let the derivative flow as for a float sum",
+           [("C14", "-", "rev", "wrong-derivative", "h:~.*dtype=int.*"), ("C14", "-", "fwd", "wrong-derivative", "h:~.*dtype=int.*")]))
